@@ -742,11 +742,17 @@ class Drillhole(Points):
                 sort_ind = np.argsort(depths)
 
                 for child in self.children:
-                    if (
-                        isinstance(child, NumericData)
-                        and getattr(child.association, "name", None) == "VERTEX"
-                    ):
+                    if getattr(child.association, "name", None) != "VERTEX":
+                        continue
+
+                    if isinstance(child, NumericData):
                         child.values = child.format_values(child.values)[sort_ind]
+                    elif isinstance(getattr(child, "values", None), (np.ndarray, str)):
+                        # text values follow their depths too (padded to the vertices)
+                        text = np.atleast_1d(child.values)
+                        padded = np.array([""] * len(sort_ind), dtype=object)
+                        padded[: len(text)] = text[: len(sort_ind)]
+                        child.values = padded[sort_ind].astype(str)
 
                 if self.vertices is not None:
                     self.vertices = self.vertices[sort_ind, :]
